@@ -144,6 +144,31 @@ CHECKS["C20"] = dict(
          "foreign/data files.",
     note="close() concurrent with other calls on the same handle is outside the contract and not driven.")
 
+CHECKS["C16"] = dict(
+    cat="exploration", engine="fmtmon_table+refcodec", design="3/C16",
+    technique="runtime monitoring: real table builder/reader checked against the input set and an independently written table/Snappy/bloom reader (+ASan/UBSan pass)",
+    text="Tables are built by the real builder for generated entry sets under all 576 option tuples and three key domains; "
+         "the real reader must return exactly the input (scans, seeks, gets, filters) and the independent reader must "
+         "decode the same entries from the bytes (CRCs over stored bytes, restart arrays, separators, footer, filter "
+         "base); Snappy is cross-checked in both directions; the separator/successor contract is checked exhaustively on "
+         "short strings.",
+    note="Trusts harness/refcodec.c as the format definition.")
+CHECKS["C17"] = dict(
+    cat="exploration", engine="fmtmon_edit+refcodec+crashmon", design="3/C17",
+    technique="runtime monitoring: edit/varint codecs vs independent codec, MANIFEST of real histories replayed independently, crash images of CURRENT switches",
+    text="Every field mask and boundary value of version edits round-trips through the real codec and an independent "
+         "decoder/encoder; all 2^32 varint32 values in thorough; at every quiescent point of real histories the MANIFEST "
+         "replayed by the independent decoder equals the reported layout and counters; in every crash image CURRENT names "
+         "a MANIFEST that replays completely and whose tables exist.",
+    note="Trusts harness/refcodec.c; crash model of C02 for the switch window.")
+CHECKS["C18"] = dict(
+    cat="exploration", engine="fuzzmon", design="3/C18",
+    technique="sanitizers: ASan+UBSan (fatal reports), signal and CPU/allocation guards over structure-aware hostile inputs for every decoder and whole-database operations",
+    text="Every decoder entry point and whole-database operations (open, get, scan, compact, repair, dump) on mutated "
+         "directories are fed random bytes, structure-aware mutations with re-sealed CRCs and splices; each batch runs in a "
+         "forked child, a death is attributed to the recorded case and reported with the first sanitizer frame.",
+    note="Red-zone sanitizers miss intra-object / far out-of-bounds accesses; NDEBUG kept on purpose.")
+
 NOT_YET = "check under construction in this session (see DESIGN.md section 3); not claimed until its monitor is committed"
 
 
